@@ -3,16 +3,22 @@
 # Applies /verif/seeded/<id>/patch.diff to /repo, runs the quick check of the given properties
 # (default: the property named in meta.json), prints the outcome, and always reverts /repo.
 set -u
+# The repository the change is applied to and the checks run against: /repo, or a scratch copy named
+# by SIMPLC_REPO (e.g. the snapshot of `vp run --with-repo`), so that a long regression need not
+# occupy /repo.  The machinery is the tree this script lives in.
+HERE="$(cd "$(dirname "${BASH_SOURCE[0]}")/.." && pwd)"
+REPO="${SIMPLC_REPO:-/repo}"
+if [ "$REPO" != /repo ]; then export SIMPLC_REPO_WS="$REPO/compiler"; fi
 # evidence and replay files of runs against a deliberately broken tree go to a scratch directory
 export SIMPLC_OUT_DIR="${SIMPLC_OUT_DIR:-/tmp/simplc-sensitivity-out}"
 mkdir -p "$SIMPLC_OUT_DIR"
 D="$(cd "$1" && pwd)"; shift
-cd /verif
+cd "$HERE"
 PROPS="$*"
 if [ -z "$PROPS" ]; then PROPS=$(python3 -c "import json,sys; print(json.load(open('$D/meta.json'))['property'])"); fi
-if ! git -C /repo diff --quiet; then echo "run_seeded: /repo has uncommitted changes, refusing" >&2; exit 2; fi
-if ! git -C /repo apply "$D/patch.diff"; then echo "run_seeded: patch does not apply" >&2; exit 2; fi
-trap 'git -C /repo checkout -- . >/dev/null 2>&1; git -C /repo clean -fdq >/dev/null 2>&1' EXIT
+if ! git -C "$REPO" diff --quiet; then echo "run_seeded: $REPO has uncommitted changes, refusing" >&2; exit 2; fi
+if ! git -C "$REPO" apply "$D/patch.diff"; then echo "run_seeded: patch does not apply" >&2; exit 2; fi
+trap 'git -C "$REPO" checkout -- . >/dev/null 2>&1; git -C "$REPO" clean -fdq >/dev/null 2>&1' EXIT
 for p in $PROPS; do
   out=$(./check "$p" quick 2>&1); code=$?
   nviol=$(echo "$out" | grep -c '^VIOLATION')
